@@ -13,6 +13,7 @@
 #include <cstdint>
 #include <cstddef>
 #include <csetjmp>
+#include <unistd.h>
 #include <string>
 #include <vector>
 #include <utility>
@@ -65,6 +66,24 @@ template <typename F> __attribute__((noinline)) Fault call(F &&f) {
 		tl_armed = 0;
 		return Fault();
 	}
+	tl_armed = 0;
+	return tl_fault;
+}
+
+// same, with a watchdog: a call that has not returned after `seconds` of wall-clock time is converted into a fault (sig == SIGALRM).
+// Only for calls whose honest duration is milliseconds (codec calls on inputs of at most a few hundred KiB): the limit is three to four
+// orders of magnitude above that, so load cannot trip it, while a call that never returns becomes a reportable, replayable failure
+// instead of a worker that is killed by the stage's wall-clock limit (which is "inconclusive", never a verdict).
+template <typename F> __attribute__((noinline)) Fault call_timed(F &&f, unsigned seconds) {
+	if (sigsetjmp(tl_jb, 1) == 0) {
+		tl_armed = 1;
+		alarm(seconds);
+		f();
+		alarm(0);
+		tl_armed = 0;
+		return Fault();
+	}
+	alarm(0);
 	tl_armed = 0;
 	return tl_fault;
 }
